@@ -108,7 +108,7 @@ SPECS = {
     'strings.replace@replace': dict(h='h_sssn', params='string old new count', cases=[
         ('$s.replace($t, $u, $n)', lambda s, t, u, n: _ok(M.m_replace(s, t, u, n))),
         ('$s.replace($t, $u)', lambda s, t, u, n: _ok(M.m_replace(s, t, u, -1)))]),
-    'strings.replace_with_dict@replace': dict(h='h_dict', params='string str_func replacements count', cases=[
+    'strings.replace_with_dict@replace': dict(h='h_dict', params='string str_func replacements count', conds='dict', cases=[
         ('$s.replace($d, $n)', lambda s, pairs, n: _ok(M.m_replace_pairs(s, pairs, n))),
         ('$s.replace($d)', lambda s, pairs, n: _ok(M.m_replace_pairs(s, pairs, -1)))]),
     'strings.string_by_int@#operator_*': dict(h='h_sn', params='left right engine',
@@ -143,7 +143,7 @@ SPECS = {
 }
 SPECS.update(RX.SPECS)
 SPEC = SPECS.get(KEY, {})
-CASES = SPEC.get('cases', [])
+CASES = SPEC.get('cases', [])[H.P('case', 0):H.P('case', 0) + 1]
 
 
 def agree(got, exp):
@@ -171,16 +171,23 @@ def small(v, n):
     return v is None or not isinstance(v, str) or len(v) <= n
 
 
+XR = H.P('xr', 2)          # property ranges: start in [-len, len+2], length in [-2, len+2]; quick uses 1 instead of 2
+CMAX = H.P('cmax', 3)      # counts in [-1, 3]
+LLEN = H.P('llen', 3)
+ELEN = H.P('elen', 2)
+IMAX = H.P('imax', 300)
+
+
 def start_ok(s, i):
-    return -len(s) <= i <= len(s) + 2
+    return -len(s) <= i <= len(s) + XR
 
 
 def length_ok(s, j):
-    return -2 <= j <= len(s) + 2
+    return -XR <= j <= len(s) + XR
 
 
 def count_ok(n):
-    return -1 <= n <= 3
+    return -1 <= n <= CMAX
 
 
 # ---------------------------------------------------------------------------------------------------------------
@@ -252,7 +259,7 @@ def h_son(s: str, o: Optional[str], n: int) -> bool:
 
 def h_ls(l: List[str], s: str) -> bool:
     """
-    pre: len(l) <= 3 and all(len(x) <= 2 for x in l) and len(s) <= 2
+    pre: len(l) <= LLEN and all(len(x) <= ELEN for x in l) and len(s) <= 2
     pre: H.fresh(l, s)
     post: _
     """
@@ -319,20 +326,21 @@ def h_ssi(s: str, t: str, i: int) -> bool:
 
 def h_ssij(s: str, t: str, i: int, j: int) -> bool:
     """
-    pre: len(s) <= SLEN and len(t) <= 2 and start_ok(s, i) and length_ok(s, j)
+    pre: len(s) <= SLEN and len(t) <= H.P('tlen', 2) and start_ok(s, i) and length_ok(s, j)
     pre: H.fresh(s, t, i, j)
     post: _
     """
     return H.done(run_cases(s=s, t=t, i=i, j=j))
 
 
-def h_dict(s: str, k1: str, v1: str, k2: str, v2: str, two: bool, n: int) -> bool:
+def h_dict(s: str, k1: str, v1: str, k2: str, v2: str, n: int) -> bool:
     """
-    pre: len(s) <= SLEN and 0 < len(k1) <= 2 and 0 < len(k2) <= 2 and len(v1) <= 2 and len(v2) <= 2 and count_ok(n)
+    pre: len(s) <= SLEN and 0 < len(k1) <= 2 and 0 < len(k2) <= H.P('k2len', 2) and len(v1) <= ELEN and len(v2) <= ELEN and count_ok(n)
     pre: k1 != k2
-    pre: H.fresh(s, k1, v1, k2, v2, two, n)
+    pre: H.fresh(s, k1, v1, k2, v2, n)
     post: _
     """
+    two = H.P('two', False)
     pairs = [(k1, v1), (k2, v2)] if two else [(k1, v1)]
     ok = True
     for text, model in CASES:
@@ -355,6 +363,9 @@ def h_dict_literal(s: str, n: int) -> bool:
     return H.done(ok)
 
 
+NF = len(M.CHAR_FLAGS)
+
+
 def chars_class(flags):
     return any(f for name, f in zip(M.CHAR_FLAGS, flags) if name in ('letters', 'lowercase', 'uppercase'))
 
@@ -369,25 +380,28 @@ def chars_check(flags):
             and all(isinstance(c, str) for c in got[1]) and set(got[1]) == exp)
 
 
-def h_chars(f0: bool, f1: bool, f2: bool, f3: bool, f4: bool, f5: bool, f6: bool, f7: bool, f8: bool, f9: bool,
-            f10: bool, f11: bool) -> bool:
-    """
-    pre: len(M.CHAR_FLAGS) == 12
-    pre: int(f0) + int(f1) + int(f2) + int(f3) + int(f4) + int(f5) + int(f6) + int(f7) + int(f8) + int(f9) + int(f10) + int(f11) <= 2
-    pre: K_CHARS not in KNOWN or not chars_class([f0, f1, f2, f3, f4, f5, f6, f7, f8, f9, f10, f11])
-    post: _
-    """
-    return H.done(chars_check([f0, f1, f2, f3, f4, f5, f6, f7, f8, f9, f10, f11]))
+def flags_of(i, j):
+    return [k == i or k == j for k in range(len(M.CHAR_FLAGS))]
 
 
-def probe_chars(f0: bool, f1: bool, f2: bool, f3: bool, f4: bool, f5: bool, f6: bool, f7: bool, f8: bool, f9: bool,
-                f10: bool, f11: bool) -> bool:
+def h_chars(i: int, j: int) -> bool:
     """
-    pre: int(f0) + int(f1) + int(f2) + int(f3) + int(f4) + int(f5) + int(f6) + int(f7) + int(f8) + int(f9) + int(f10) + int(f11) <= 1
-    pre: chars_class([f0, f1, f2, f3, f4, f5, f6, f7, f8, f9, f10, f11])
+    pre: 0 <= i <= NF and 0 <= j <= NF
+    pre: j == NF or j == 0 or j == i + 1 or H.P('allpairs', False)
+    pre: K_CHARS not in KNOWN or not chars_class(flags_of(i, j))
     post: _
     """
-    return H.done(chars_check([f0, f1, f2, f3, f4, f5, f6, f7, f8, f9, f10, f11]))
+    # flags i and j are true (NF = none): every flag alone, every flag with `digits`, every flag with its neighbour
+    return H.done(chars_check(flags_of(i, j)))
+
+
+def probe_chars(i: int) -> bool:
+    """
+    pre: 0 <= i < NF
+    pre: chars_class(flags_of(i, NF))
+    post: _
+    """
+    return H.done(chars_check(flags_of(i, NF)))
 
 
 def hex_class(v):
@@ -408,7 +422,7 @@ def hex_check(v):
 def h_hex(v: Scalar) -> bool:
     """
     pre: small(v, 1)
-    pre: not (isinstance(v, int) and not isinstance(v, bool)) or -300 <= v <= 300
+    pre: not (isinstance(v, int) and not isinstance(v, bool)) or -IMAX <= v <= IMAX
     pre: K_HEX not in KNOWN or not hex_class(v)
     pre: H.fresh(v)
     post: _
@@ -437,7 +451,7 @@ def law_split_join(s: str, t: str) -> bool:
 
 def law_join_split(l: List[str], t: str) -> bool:
     """
-    pre: 0 < len(l) <= 3 and all(len(x) <= 1 for x in l) and 0 < len(t) <= 2
+    pre: 0 < len(l) <= LLEN and all(len(x) <= 1 for x in l) and 0 < len(t) <= 2
     pre: all(t not in x for x in l)
     pre: len(t) == 1 or all(x != t[0] and x != t[1] for x in l)
     post: _
@@ -480,7 +494,10 @@ def registry():
 def conditions(tier, seed):
     quick = tier == 'quick'
     slen = 2 if quick else 3
-    t = 100 if quick else 900
+    t = 200 if quick else 900
+    xr, cmax = (1, 2) if quick else (2, 3)
+    quick_p = {'xr': xr, 'cmax': cmax, 'llen': 2 if quick else 3, 'elen': 1 if quick else 2, 'imax': 20 if quick else 300,
+               'tlen': 1 if quick else 2, 'k2len': 1 if quick else 2}
     out = []
     seen = set()
     for key, params in registry():
@@ -491,19 +508,38 @@ def conditions(tier, seed):
             out.append({'name': 'uncovered[%s]' % key, 'func': 'h_uncovered', 'timeout': 5, 'twin': False,
                         'bounds': 'registered function without a model in props/c19.py: %s' % why})
             continue
-        for c in (spec.get('conds') or [{}]):
-            name = '%s%s' % (key, c.get('suffix', ''))
-            out.append({'name': name, 'func': c.get('h', spec['h']), 'timeout': c.get('timeout', t) if quick else 900,
-                        'param': dict(c.get('param') or {}, fn=key, slen=slen),
-                        'bounds': c.get('bounds') or spec.get('bounds') or
-                        'symbolic arguments, strings len <= %d, property ranges for start/length/count; %d call forms'
-                        % (slen, len(spec.get('cases') or []))})
+        if spec.get('conds') == 'dict':
+            for case, two in ((0, False), (1, True)) if quick else ((0, False), (0, True), (1, True)):
+                out.append({'name': '%s: %s [%d entr%s]' % (key, spec['cases'][case][0], 1 + two, 'ies' if two else 'y'),
+                            'func': 'h_dict', 'timeout': 2 * t,
+                            'param': dict(quick_p, fn=key, slen=slen, case=case, two=two),
+                            'bounds': 'by dispatch; $d an ordered Mapping object of %d entr%s with symbolic keys (len 1..2%s, distinct, '
+                                      'may overlap) and values (len <= %d), receiver len <= %d, count in [-1, %d]'
+                                      % (1 + two, 'ies' if two else 'y', '; second key len 1' if quick else '',
+                                         quick_p['elen'], slen, cmax)})
+            continue
+        if spec.get('conds'):
+            for c in spec['conds']:
+                out.append({'name': key + c.get('suffix', ''), 'func': c.get('h', spec['h']),
+                            'timeout': c.get('timeout', t) if quick else 900,
+                            'param': dict(quick_p, **dict(c.get('param') or {}, fn=key, slen=slen)),
+                            'bounds': c.get('bounds') or spec.get('bounds')})
+            continue
+        cases = spec.get('cases') or [(None, None)]
+        for k, (text, _) in enumerate(cases):
+            sl = slen + (1 if (not quick and spec.get('light')) else 0)
+            out.append({'name': key if text is None else '%s: %s' % (key, text), 'func': spec['h'], 'timeout': t,
+                        'param': dict(quick_p, fn=key, slen=sl, case=k),
+                        'bounds': spec.get('bounds') or
+                        'by dispatch%s; symbolic arguments over an unrestricted alphabet, receiver len <= %d, other strings '
+                        'len <= 2, start in [-len, len+%d], length in [-%d, len+%d], counts in [-1, %d]'
+                        % ('' if text is None else ' of ' + text, sl, xr, xr, xr, cmax)})
     out.append({'name': 'replace-dict-literal', 'func': 'h_dict_literal', 'timeout': t,
-                'param': {'fn': 'strings.replace_with_dict@replace', 'slen': slen},
+                'param': dict(quick_p, fn='strings.replace_with_dict@replace', slen=slen),
                 'bounds': 's len <= %d, count in [-1,3]; YAQL dict literals with overlapping keys in both orders' % slen})
-    out.append({'name': 'law[split-join]', 'func': 'law_split_join', 'timeout': t, 'param': {'slen': slen},
+    out.append({'name': 'law[split-join]', 'func': 'law_split_join', 'timeout': t, 'param': dict(quick_p, slen=slen),
                 'bounds': 's len <= %d, separator len 1..2' % slen})
-    out.append({'name': 'law[join-split]', 'func': 'law_join_split', 'timeout': t, 'param': {'slen': slen},
+    out.append({'name': 'law[join-split]', 'func': 'law_join_split', 'timeout': t, 'param': dict(quick_p, slen=slen),
                 'bounds': 'list len 1..3 of strings len <= 1 not containing the separator (len 1..2)'})
     out.extend(RX.extra_conditions(tier, KNOWN))
     if K_CHARS in KNOWN:
@@ -538,7 +574,7 @@ def replay(cond, args):
                     'what': 'hex(%r): declared type admits it, result %r (expected a string or no-matching-function)'
                             % (v, yq.outcome('hex($v)', v=v))}
     if cond['func'] in ('h_chars', 'probe_chars'):
-        flags = [vals['f%d' % i] for i in range(12)]
+        flags = flags_of(vals.get('i'), vals.get('j', NF))
         if chars_class(flags):
             on = [M.camel(n) for n, f in zip(M.CHAR_FLAGS, flags) if f]
             return {'reproduced': True, 'key': K_CHARS,
